@@ -62,6 +62,12 @@ for f in sorted(os.listdir(bd)):
                                            for k in ("kind", "op", "impl", "model", "detail", "no_longer_checks") if j.get(k)}
                 except Exception as e:
                     r["replay_summary"] = str(e)
+    prev = meta["rewrites"].get(name)
+    if prev and prev.get("false_alarm") and not r["false_alarm"]:
+        # an earlier run raised an alarm on this rewrite; the machinery was corrected since: keep the record
+        r["first_run"] = {k: prev.get(k) for k in ("lines", "replay_summary", "check_exit") if prev.get(k) is not None}
+    elif prev and prev.get("first_run"):
+        r["first_run"] = prev["first_run"]
     meta["rewrites"][name] = r
     print(name, "exit", p.returncode, lines[-1][:200] if lines else p.stdout[-300:])
 run("git -C %s checkout -- src" % wt)
